@@ -38,6 +38,8 @@ def enc_args(args):
             vals = [int(v)]
         elif isinstance(v, (int, np.integer)):
             vals = [int(v)]
+        elif isinstance(v, (list, tuple)) and all(isinstance(x, (int, bool, np.integer, np.bool_)) for x in v):
+            vals = [int(x) for x in v]     # exact for any magnitude (np.asarray would go through float64 above 2**63)
         else:
             a = np.asarray(v)
             if a.dtype == bool:
@@ -267,6 +269,7 @@ class Ctx:
         self.tier = tier
         self.seed = seed
         self.rng = random.Random(seed * 1000003 + int(prop[1:]))
+        CURRENT_PROP[0] = prop
         self.t0 = time.time()
         self.cases = []          # (cid, desc, requests, judge)
         self.failures = []       # dicts
@@ -350,71 +353,142 @@ def load_known_findings():
 # network in which one pit still drained somewhere, then `add_pits`). By C12 this must be unobservable; it
 # makes every property check sensitive to stale or argument-dependent cached state.
 _HIST_RNG = random.Random(int(os.environ.get("VERIF_SEED", "0") or 0) * 7919 + 13)
-HISTORY_STATS = {"fresh": 0, "warm": 0, "via_add_pits": 0}
+HISTORY_STATS = {"fresh": 0, "warm": 0, "via_add_pits": 0, "via_set_transform": 0, "aged_ops": 0}
+CURRENT_PROP = [None]   # set by Ctx: which property is being checked (decides the focus of the ageing)
+
+# catalogue operations a property's own observables share state with: ageing prefers them, so that an object has
+# typically answered the SAME kind of query before with other arguments (argument-dependent caches, results
+# stored under the wrong condition), and - through the mutator paths below - before a network / transform change
+PROP_FOCUS = {
+    "C01": ("to_array", "idxs_pit", "mask"), "C02": ("to_array", "idxs_seq", "basins", "upstream_area", "rank"),
+    "C03": ("rank", "idxs_seq", "nnodes", "isvalid", "n_upstream", "idxs_pit"),
+    "C04": ("upstream_area", "accuflux", "area"), "C05": ("basins", "basin_outlets", "basin_bounds", "interbasin_mask"),
+    "C08": ("stream_order", "main_upstream", "idxs_us_main", "upstream_area"),
+    "C09": ("upstream_area", "idxs_us_main"), "C10": ("upstream_area", "idxs_us_main", "distnc", "hand_floodplains"),
+    "C11": ("path", "snap", "idxs_us_main", "distnc"),
+    "C14": ("moving_average", "moving_median", "fillnodata", "stream_distance", "hand_floodplains", "smooth_rivlen",
+            "downstream", "upstream_sum", "main_upstream", "upstream_area", "river_depth", "classify_estuaries"),
+    "C15": ("dem_adjust",), "C17": ("area", "upstream_area", "index_xy", "distnc", "bounds", "stream_distance"),
+    "C18": ("subbasins_streamorder", "subbasins_area", "stream_order", "idxs_us_main", "upstream_area"),
+    "C19": ("streams", "vectorize", "n_upstream", "stream_order"), "C20": (),
+}
 
 
-def _warmup(flw, rng, raster):
+def _warmup(flw, rng, raster, loopfree=True):
     n = flw.size
     first = int(np.flatnonzero(np.asarray(flw.idxs_ds).ravel() != flw._mv)[0])
+    shp = flw.shape if raster else (n,)
     qs = [lambda: flw.rank, lambda: flw.idxs_seq, lambda: flw.nnodes, lambda: flw.idxs_pit, lambda: flw.idxs_us_main,
           lambda: flw.stream_order(), lambda: flw.stream_order(type="classic"), lambda: flw.upstream_area(),
           lambda: flw.area, lambda: flw.distnc, lambda: flw.n_upstream,
-          lambda: flw.stream_order(mask=(np.arange(n) % 2 == 0).reshape(flw.shape)),
-          lambda: flw.main_upstream(uparea=np.arange(n, 0, -1, dtype=np.float64).reshape(flw.shape)),
-          lambda: flw.moving_average(np.ones(flw.shape), n=1), lambda: flw.accuflux(np.ones(flw.shape))]
+          lambda: flw.stream_order(mask=(np.arange(n) % 2 == 0).reshape(shp)),
+          lambda: flw.main_upstream(uparea=np.arange(n, 0, -1, dtype=np.float64).reshape(shp)),
+          lambda: flw.moving_average(np.ones(shp), n=1), lambda: flw.accuflux(np.ones(shp))]
     if raster:
-        qs += [lambda: flw.upstream_area("km2"), lambda: flw.upstream_area("ha"), lambda: flw.basins(),
+        qs += [lambda: flw.upstream_area("km2"), lambda: flw.upstream_area("ha"), lambda: flw.upstream_area("m2"), lambda: flw.basins(),
                lambda: flw.stream_distance(unit="cell"), lambda: flw.ucat_area(np.array([[first]]), unit="km2"),
                lambda: flw.subbasins_streamorder(min_sto=1), lambda: flw.floodplains(np.zeros(flw.shape)),
                lambda: flw.subgrid_rivlen(None, unit="cell")]
-    for q in rng.sample(qs, rng.randint(1, 5)):
-        try:
-            q()
-        except Exception:  # noqa: BLE001  (warm-up never decides anything)
-            pass
+    if loopfree:
+        for q in rng.sample(qs, rng.randint(0, 4)):
+            try:
+                q()
+            except Exception:  # noqa: BLE001  (warm-up never decides anything)
+                pass
+    try:
+        import catalogue
+        ran = catalogue.age(flw, rng, focus=PROP_FOCUS.get(CURRENT_PROP[0], ()), loopfree=loopfree)
+        HISTORY_STATS["aged_ops"] += len(ran)
+    except Exception:  # noqa: BLE001
+        pass
+
+
+def aged(flw, p=0.4, loopfree=True):
+    """for harnesses that build their objects themselves (from_array, from_dem, ...): with probability p let the object
+    answer a few catalogue queries first. Returns flw."""
+    rng = _HIST_RNG
+    if os.environ.get("PF_NO_HISTORY") == "1" or rng.random() >= p or not getattr(flw, "cache", True):
+        return flw
+    try:
+        _warmup(flw, rng, hasattr(flw, "transform"), loopfree=loopfree)
+        HISTORY_STATS["warm"] += 1
+    except Exception:  # noqa: BLE001
+        pass
+    return flw
+
+
+def _other_transform(rng, kw):
+    """a georeference different from the one the harness asks for (other cell size, other origin, possibly the other
+    latlon flag): the object is built with it, aged, and then moved to the requested one with set_transform"""
+    from affine import Affine
+    t = kw.get("transform")
+    a, b, c, d, e, f = (tuple(t)[:6] if t is not None else (1.0, 0.0, 0.0, 0.0, -1.0, 0.0))
+    latlon = bool(kw.get("latlon", False))
+    u = rng.random()
+    if u < 0.35:      # same cell size, other origin (for geographic grids: other latitudes)
+        return Affine(a, b, c + rng.choice([-3, 2, 10]), d, e, f + rng.choice([-7, 4, 11])), latlon
+    if u < 0.7:       # other cell size
+        k = rng.choice([2, 0.5, 3])
+        return Affine(a * k, b, c, d, e * rng.choice([k, 1, 1 / k]), f), latlon
+    return Affine(a, b, c, d, e, f), not latlon   # same affine, other latlon flag
 
 
 def _with_history(build, ds, dtype, raster, kw):
     rng = _HIST_RNG
     u = rng.random()
     plain = not any(k in kw for k in ("idxs_pit", "idxs_seq", "nnodes", "idxs_outlet")) and kw.get("cache", True)
-    if os.environ.get("PF_NO_HISTORY") == "1" or u < 0.6 or not plain:
+    if os.environ.get("PF_NO_HISTORY") == "1" or u < 0.55 or not plain:
         HISTORY_STATS["fresh"] += 1
-        return build(ds_to_np(ds, dtype))
+        return build(ds_to_np(ds, dtype), kw)
     n = len(ds)
     pits = [i for i in range(n) if ds[i] == i]
     valid = [i for i in range(n) if ds[i] != n]
-    if u < 0.8 or len(pits) < 2 or len(valid) < 3:
-        flw = build(ds_to_np(ds, dtype))
-        _warmup(flw, rng, raster)
-        HISTORY_STATS["warm"] += 1
+    loopfree = len(topo_of(ds)) == len(valid)
+    # optionally reach the requested georeference through set_transform
+    kw0, moved = kw, False
+    if raster and rng.random() < 0.3:
+        t0, ll0 = _other_transform(rng, kw)
+        kw0 = dict(kw, transform=t0, latlon=ll0)
+        moved = True
+
+    def finish(flw):
+        if moved:
+            from affine import Affine
+            t = kw.get("transform")
+            flw.set_transform(t if t is not None else Affine(1.0, 0.0, 0.0, 0.0, -1.0, 0.0), bool(kw.get("latlon", False)))
+            HISTORY_STATS["via_set_transform"] += 1
         return flw
+    if u < 0.8 or len(pits) < 2 or len(valid) < 3:
+        flw = build(ds_to_np(ds, dtype), kw0)
+        _warmup(flw, rng, raster, loopfree)
+        HISTORY_STATS["warm"] += 1
+        return finish(flw)
     # reach `ds` through a mutator: pit p still drains to some other valid cell in the initial network
     p = rng.choice(pits)
     q = rng.choice([v for v in valid if v != p])
     ds0 = list(ds)
     ds0[p] = q
     try:
-        flw = build(ds_to_np(ds0, dtype))
-        _warmup(flw, rng, raster)
+        flw = build(ds_to_np(ds0, dtype), kw0)
+        _warmup(flw, rng, raster, len(topo_of(ds0)) == len(valid))
         flw.add_pits(idxs=np.array([p]))
         if canon_idx(flw.idxs_ds, n) != list(ds):
             raise RuntimeError("harness: add_pits did not produce the intended network")
         HISTORY_STATS["via_add_pits"] += 1
-        return flw
+        return finish(flw)
     except ValueError:
         HISTORY_STATS["fresh"] += 1
-        return build(ds_to_np(ds, dtype))
+        return build(ds_to_np(ds, dtype), kw)
 
 
 def mk_raster(ds, shape, dtype=np.int32, ftype="d8", **kw):
     from pyflwdir.pyflwdir import FlwdirRaster
-    return _with_history(lambda a: FlwdirRaster(idxs_ds=a, shape=tuple(shape), ftype=ftype, **kw), ds, dtype, True, kw)
+    return _with_history(lambda a, k: FlwdirRaster(idxs_ds=a, shape=tuple(shape), ftype=ftype, **k), ds, dtype, True, kw)
 
 
 def mk_vector(ds, dtype=np.int32, **kw):
     from pyflwdir.flwdir import Flwdir
-    return _with_history(lambda a: Flwdir(idxs_ds=a, **kw), ds, dtype, False, kw)
+    return _with_history(lambda a, k: Flwdir(idxs_ds=a, **k), ds, dtype, False, kw)
 
 
 def gen_raster_net(rng, max_cells=56, loopfree=True):
@@ -443,3 +517,120 @@ def topo_of(ds):
         seq.extend(ups[seq[k]])
         k += 1
     return seq
+
+
+# ----------------------------------------------------------------------------------------
+# memory layout of array arguments at the public API boundary
+# ----------------------------------------------------------------------------------------
+# Users hand the library transposed views, column-major arrays and strided windows of larger rasters. The values a
+# harness generates are what matters to a property; with some probability the arrays it passes to a public method /
+# function are therefore replaced, at the call boundary, by arrays with the SAME shape, dtype and values but another
+# memory layout. For a correct implementation this is unobservable.
+LAYOUT_STATS = {"api_calls": 0, "relayouted_args": 0}
+_LAY_RNG = random.Random(int(os.environ.get("VERIF_SEED", "0") or 0) * 104729 + 7)
+
+
+def _relayout(a, rng):
+    if type(a) is not np.ndarray or a.size < 2 or a.dtype.kind not in "biuf":
+        return a
+    u = rng.random()
+    if a.ndim == 2:
+        if u < 0.4:
+            return np.asfortranarray(a)
+        if u < 0.7:
+            big = np.zeros((a.shape[0], 2 * a.shape[1]), dtype=a.dtype)
+            big[:, ::2] = a
+            return big[:, ::2]
+        big = np.zeros((2 * a.shape[0], a.shape[1]), dtype=a.dtype)
+        big[1::2] = a
+        return big[1::2]
+    if a.ndim == 1:
+        big = np.zeros(2 * a.size, dtype=a.dtype)
+        big[::2] = a
+        return big[::2]
+    if a.ndim == 3:
+        return np.asfortranarray(a)
+    return a
+
+
+def _vary(x, rng):
+    if isinstance(x, np.ndarray):
+        if rng.random() < 0.6:
+            LAYOUT_STATS["relayouted_args"] += 1
+            return _relayout(x, rng)
+        return x
+    if isinstance(x, tuple) and 0 < len(x) <= 3 and all(isinstance(y, np.ndarray) for y in x):
+        return tuple(_vary(y, rng) for y in x)
+    return x
+
+
+def install_layout_variation(p=0.25):
+    """wrap the public methods of Flwdir / FlwdirRaster and the public module-level functions"""
+    if os.environ.get("PF_NO_LAYOUT") == "1":
+        return
+    import functools
+    import inspect
+    import pyflwdir
+    from pyflwdir.flwdir import Flwdir
+    from pyflwdir.pyflwdir import FlwdirRaster
+    depth = [0]
+
+    def wrap(fn, skip_self):
+        if getattr(fn, "_pf_layout", False):
+            return fn
+
+        @functools.wraps(fn)
+        def wrapped(*args, **kwargs):
+            if depth[0] > 0 or _LAY_RNG.random() >= p:
+                depth[0] += 1
+                try:
+                    return fn(*args, **kwargs)
+                finally:
+                    depth[0] -= 1
+            LAYOUT_STATS["api_calls"] += 1
+            k0 = 1 if skip_self else 0
+            args = tuple(args[:k0]) + tuple(_vary(a, _LAY_RNG) for a in args[k0:])
+            kwargs = {k: _vary(v, _LAY_RNG) for k, v in kwargs.items()}
+            depth[0] += 1
+            try:
+                return fn(*args, **kwargs)
+            finally:
+                depth[0] -= 1
+        wrapped._pf_layout = True
+        return wrapped
+    for cls in (Flwdir, FlwdirRaster):
+        for nm, v in list(vars(cls).items()):
+            if nm.startswith("_") or not inspect.isfunction(v):
+                continue
+            setattr(cls, nm, wrap(v, True))
+    for nm in ("from_array", "from_dem"):
+        v = getattr(pyflwdir.pyflwdir, nm)
+        w = wrap(v, False)
+        setattr(pyflwdir.pyflwdir, nm, w)
+        if getattr(pyflwdir, nm, None) is v:
+            setattr(pyflwdir, nm, w)
+    for m, names in (("dem", ("fill_depressions", "slope")), ("gis_utils", ("spread2d", "get_edge")),
+                     ("regions", ("region_sum", "region_area", "region_bounds", "region_dissolve", "region_outlets"))):
+        mod = __import__("pyflwdir." + m, fromlist=[m])
+        for nm in names:
+            v = getattr(mod, nm, None)
+            if v is not None and inspect.isfunction(v):
+                setattr(mod, nm, wrap(v, False))
+
+
+def strahler_of(ds):
+    """harness' own Strahler order (0 outside the cells that reach a pit): 1 at headwaters, at a junction the largest
+    inflowing order, plus one iff it is attained at least twice"""
+    n = len(ds)
+    seq = topo_of(ds)
+    order, mx, cnt = [0] * n, [0] * n, [0] * n
+    for i in reversed(seq):
+        o = 1 if mx[i] == 0 else (mx[i] + 1 if cnt[i] >= 2 else mx[i])
+        order[i] = o
+        d = ds[i]
+        if d != i:
+            if o > mx[d]:
+                mx[d], cnt[d] = o, 1
+            elif o == mx[d]:
+                cnt[d] += 1
+    return order
